@@ -3,6 +3,7 @@ package e1
 import (
 	"fmt"
 	"math/big"
+	"strings"
 	"testing"
 	"testing/synctest"
 	"time"
@@ -825,7 +826,7 @@ func runFilters(t *testing.T, rc *core.RunCtx) {
 		// excuse for waiting for the next block.
 		wt.check()
 		bs, _ := w.cs.BestBlock()
-		rc.Failf("no-convergence-after-faults-stopped", map[string]string{"cause": nonConvergenceCause(w, wt), "lossless": "true"},
+		failNoConvergence(rc, w, wt, map[string]string{"lossless": "true"},
 			"no message was ever dropped, stalled or cut in this run, yet %v after the calm phase began (honest node %s connected, chain quiescent at %d) the client reports best block %d; block tip %d, filter tip %d",
 			bound/3, w.peers[0].addr.IP, honestTip.Height, bs.Height, wt.prev.tip(), len(wt.prev.filt)-1)
 	}
@@ -847,8 +848,7 @@ func runFilters(t *testing.T, rc *core.RunCtx) {
 	if !converged {
 		bs, _ := w.cs.BestBlock()
 		if rc.Prop == "C04" {
-			cause := nonConvergenceCause(w, wt)
-			rc.Failf("no-convergence-after-faults-stopped", map[string]string{"cause": cause},
+			failNoConvergence(rc, w, wt, map[string]string{},
 				"%v of simulated time after every fault stopped, with the honest node %s serving tip %d (%s), the client reports best block %d (%s); block tip %d, filter tip %d",
 				bound, w.peers[0].addr.IP, honestTip.Height, short(honestTip.Hash), bs.Height, short(bs.Hash), wt.prev.tip(), len(wt.prev.filt)-1)
 		}
@@ -863,7 +863,7 @@ func runFilters(t *testing.T, rc *core.RunCtx) {
 			w.peers[0].announce(tp.Chance(1, 2), 1)
 			if !w.runFor(bound, atHonestTip) {
 				wt.check()
-				rc.Failf("no-convergence-after-faults-stopped", map[string]string{"cause": nonConvergenceCause(w, wt), "phase": "growth"},
+				failNoConvergence(rc, w, wt, map[string]string{"phase": "growth"},
 					"after converging, the honest chain grew to %d but the client did not follow within %v", honestTip.Height, bound)
 			}
 			rc.Probe("followed_growth_after_convergence")
@@ -926,6 +926,31 @@ func runFilters(t *testing.T, rc *core.RunCtx) {
 
 // nonConvergenceCause classifies why the client is not at the honest tip: the
 // one cause recorded as a known finding is told apart from everything else.
+// althoughAnswered: a false filter header was committed although the honest
+// node was among the responders. When the lie told at that height is one the
+// client cannot refute from the block (an extra element, the block's
+// OP_RETURN script), a majority of liars wins by design: C03 promises the
+// honest value only against provable lies, and C04 refers to C03 for what
+// the other peers may send.
+func althoughAnswered(w *World, h int) string {
+	if k := w.lieKindAt(int32(h)); k == lieNames[lieExtra] || k == lieNames[lieOpReturn] {
+		return "unrefutable-false-filter-header-committed-by-a-majority-of-liars"
+	}
+	return "false-filter-header-committed-although-honest-node-answered"
+}
+
+// failNoConvergence reports C04's liveness clause with its cause, unless the
+// cause is outside what the statement promises (see althoughAnswered).
+func failNoConvergence(rc *core.RunCtx, w *World, wt *watcher, facts map[string]string, format string, a ...any) {
+	cause := nonConvergenceCause(w, wt)
+	if strings.HasPrefix(cause, "unrefutable") {
+		rc.Probe("not_converged_after_an_unrefutable_lie_won_the_majority")
+		return
+	}
+	facts["cause"] = cause
+	rc.Failf("no-convergence-after-faults-stopped", facts, format, a...)
+}
+
 func nonConvergenceCause(w *World, wt *watcher) string {
 	// The first false filter header in the store, if any: was it committed
 	// without the honest node ever having been asked about that height?
@@ -943,13 +968,13 @@ func nonConvergenceCause(w *World, wt *watcher) string {
 					if !w.peers[0].cfAnsweredStops[sh] {
 						return "false-filter-header-committed-while-no-honest-node-was-asked"
 					}
-					return "false-filter-header-committed-although-honest-node-answered"
+					return althoughAnswered(w, h)
 				}
 			}
 			if !w.peers[0].cfAsked[int32(h)] {
 				return "false-filter-header-committed-while-no-honest-node-was-asked"
 			}
-			return "false-filter-header-committed-although-honest-node-answered"
+			return althoughAnswered(w, h)
 		}
 	}
 	// Stuck on the chain of a connected node that lags behind, with the honest
@@ -985,7 +1010,10 @@ func nonConvergenceCause(w *World, wt *watcher) string {
 		fork := chainmodel.ForkPoint(ct, hon)
 		displaced := new(big.Int).Sub(ct.CumWork, fork.CumWork)
 		for _, p := range w.peers {
-			if p.idx == 0 || !p.connected() || p.beh.MaxHeaders <= 0 || !fork.IsAncestorOf(p.view) || ct.IsAncestorOf(p.view) {
+			// (connected or in its reconnect loop: the client cuts such a
+			// node each time it offers a batch that looks lighter, and
+			// dials it again five seconds later)
+			if p.idx == 0 || p.beh.MaxHeaders <= 0 || !fork.IsAncestorOf(p.view) || ct.IsAncestorOf(p.view) {
 				continue
 			}
 			// The batch starts after the newest block of the client's
